@@ -552,10 +552,17 @@ func (h kvHandler) HandleKvRawCompareAndSwap(req *kvrpcpb.RawCASRequest) *kvrpcp
 		}
 	}
 
+	// nil means "the key must not exist"
+	expected := req.GetPreviousValue()
+	if req.GetPreviousNotExist() {
+		expected = nil
+	} else if expected == nil {
+		expected = []byte{}
+	}
 	oldValue, success, err := rawKV.RawCompareAndSwap(
 		req.Cf,
 		req.GetKey(),
-		req.GetPreviousValue(),
+		expected,
 		req.GetValue(),
 	)
 	if err != nil {
